@@ -97,6 +97,21 @@ Definition done_ok (c : cfg) (w : list event) (t : tid) (th : thread) : Prop :=
   forall j o, nth_error (t_done th) j = Some o ->
     exists q r, o = Ok r /\ nth_error (t_reqs th) j = Some q /\ exchange_in c w t j q r.
 
+(* a thread between the release and the return already owns its reply *)
+Definition ret_ok (c : cfg) (w : list event) (t : tid) (th : thread) : Prop :=
+  match t_pc th with
+  | PRet h (Ok r) => exists q, nth_error (t_reqs th) (t_k th) = Some q /\
+                               exchange_in c w t (t_k th) q r
+  | PRet h (Err _) => False
+  | _ => True
+  end.
+
+Lemma ret_ok_cons c e w t th : ret_ok c w t th -> ret_ok c (e :: w) t th.
+Proof.
+  unfold ret_ok. destruct (t_pc th); auto. destruct o; auto.
+  intros (q & ? & ?). exists q. split; auto. apply exchange_in_cons; auto.
+Qed.
+
 Section WithCfg.
 Variable c : cfg.
 Variable s0 : N.
@@ -116,7 +131,8 @@ Record Inv (g : gstate) : Prop := mkInv {
                                     holder_ok c (g_wire g) (g_inbox g) t th
              end;
   inv_cur : forall t th, nth_error (g_thr g) t = Some th ->
-            t_pc th = PIdle \/ nth_error (t_reqs th) (t_k th) <> None }.
+            t_pc th = PIdle \/ nth_error (t_reqs th) (t_k th) <> None;
+  inv_ret : forall t th, nth_error (g_thr g) t = Some th -> ret_ok c (g_wire g) t th }.
 
 Lemma inv_init nsn0 progs : Inv (init nsn0 s0 progs).
 Proof.
@@ -128,6 +144,8 @@ Proof.
   - split; [constructor | reflexivity].
   - intros t th H. apply nth_error_In in H. apply in_map_iff in H. destruct H as (p & <- & _).
     left; reflexivity.
+  - intros t th H. apply nth_error_In in H. apply in_map_iff in H. destruct H as (p & <- & _).
+    exact I.
 Qed.
 
 (* a thread outside the critical section is not the holder *)
@@ -148,6 +166,13 @@ Ltac cur_goal Hth Ic Hq :=
   destruct (upd_cases _ _ _ _ _ _ Hth Hx) as [[-> ->]|[? ?]];
   [ cbn; first [ left; reflexivity | right; rewrite Hq; discriminate ] | eapply Ic; eauto ].
 
+Ltac ret_goal Hth Ir :=
+  let t' := fresh "t'" in let x := fresh "x" in let Hx := fresh "Hx" in
+  intros t' x Hx;
+  destruct (upd_cases _ _ _ _ _ _ Hth Hx) as [[-> ->]|[? ?]];
+  [ unfold ret_ok; cbn; auto
+  | first [ eapply Ir; solve [eauto] | apply ret_ok_cons; eapply Ir; solve [eauto] ] ].
+
 Lemma done_ok_set_pc w t th p : done_ok c w t th -> done_ok c w t (set_pc th p).
 Proof. auto. Qed.
 
@@ -156,10 +181,11 @@ Proof. auto. Qed.
 Lemma inv_local g t th p v : Inv g -> nth_error (g_thr g) t = Some th ->
   in_cs (t_pc th) = false -> in_cs p = false ->
   forall q, nth_error (t_reqs th) (t_k th) = Some q ->
+  (forall h o, p <> PRet h o) ->
   Inv (set_thr (set_nsn g v) t (set_pc th p)).
 Proof.
-  intros I Hth Hcs Hp q Hq. pose proof (not_holder g t th I Hth Hcs) as NH.
-  destruct I as [Il Iq In Is Iso Id Ih Ic]. constructor; cbn; auto.
+  intros I Hth Hcs Hp q Hq Hnr. pose proof (not_holder g t th I Hth Hcs) as NH.
+  destruct I as [Il Iq In Is Iso Id Ih Ic Ir]. constructor; cbn; auto.
   - intros t' x Hx. destruct (upd_cases _ _ _ _ _ _ Hth Hx) as [[-> ->]|[Hne Hx']].
     + cbn. rewrite Hp. split; [discriminate | intro; contradiction].
     + apply Il; auto.
@@ -169,6 +195,9 @@ Proof.
   - destruct (g_lock g) as [t0|]; auto. destruct Ih as (th0 & E0 & H0).
     exists th0. split; auto. rewrite nth_error_upd_neq; auto; congruence.
   - cur_goal Hth Ic Hq.
+  - intros t' x Hx. destruct (upd_cases _ _ _ _ _ _ Hth Hx) as [[-> ->]|[? ?]].
+    + unfold ret_ok; cbn. destruct p; auto. exfalso. eapply Hnr; eauto.
+    + eapply Ir; eauto.
 Qed.
 
 (* step 6: the holder reads a datagram - only the socket side and its own pc change *)
@@ -180,7 +209,7 @@ Lemma inv_recv g t th p rx ib q : Inv g -> nth_error (g_thr g) t = Some th ->
                t (set_pc th p)).
 Proof.
   intros I Hth Hcs Hp Hq Hk. destruct (is_holder g t th I Hth Hcs) as [L _].
-  destruct I as [Il Iq In Is Iso Id Ih Ic].
+  destruct I as [Il Iq In Is Iso Id Ih Ic Ir].
   constructor; cbn; auto.
   - intros t' x Hx. destruct (upd_cases _ _ _ _ _ _ Hth Hx) as [[-> ->]|[Hne Hx']].
     + cbn. rewrite Hp. split; auto.
@@ -194,6 +223,9 @@ Proof.
       exists q', r'. repeat split; auto. apply exchange_in_cons; auto.
   - rewrite L. exists (set_pc th p). split; auto. eapply nth_error_upd_eq; eauto.
   - cur_goal Hth Ic Hq.
+  - intros t' x Hx. destruct (upd_cases _ _ _ _ _ _ Hth Hx) as [[-> ->]|[? ?]].
+    + unfold ret_ok; cbn. destruct p; try discriminate; exact Logic.I.
+    + apply ret_ok_cons. eapply Ir; eauto.
 Qed.
 
 Lemma step_inv g t l g' : Inv g -> step_l c g t = Some (l, g') -> Inv g'.
@@ -203,14 +235,14 @@ Proof.
   destruct (nth_error (t_reqs th) (t_k th)) as [q|] eqn:Hq; [|discriminate].
   destruct (t_pc th) eqn:Hpc.
   - (* read *) inversion H; subst; clear H.
-    apply (inv_local g t th (PInc (g_nsn g)) (g_nsn g)) with (q := q); auto. rewrite Hpc; auto.
+    apply (inv_local g t th (PInc (g_nsn g)) (g_nsn g)) with (q := q); auto; [rewrite Hpc; auto | discriminate].
   - (* write *) inversion H; subst; clear H.
-    apply (inv_local g t th PHdr ((r + 1) mod 64)) with (q := q); auto. rewrite Hpc; auto.
+    apply (inv_local g t th PHdr ((r + 1) mod 64)) with (q := q); auto; [rewrite Hpc; auto | discriminate].
   - (* header read *) inversion H; subst; clear H.
-    apply (inv_local g t th (PAcq (g_nsn g)) (g_nsn g)) with (q := q); auto. rewrite Hpc; auto.
+    apply (inv_local g t th (PAcq (g_nsn g)) (g_nsn g)) with (q := q); auto; [rewrite Hpc; auto | discriminate].
   - (* acquire *)
     destruct (g_lock g) eqn:L; [discriminate|]. inversion H; subst; clear H.
-    destruct I as [Il Iq In Is Iso Id Ih Ic]. rewrite L in Ih. destruct Ih as [Hw Hib].
+    destruct I as [Il Iq In Is Iso Id Ih Ic Ir]. rewrite L in Ih. destruct Ih as [Hw Hib].
     constructor; cbn; auto.
     + intros t' x Hx. destruct (upd_cases _ _ _ _ _ _ Hth Hx) as [[-> ->]|[Hne Hx']].
       * cbn. split; auto.
@@ -224,12 +256,13 @@ Proof.
       * eapply nth_error_upd_eq; eauto.
       * unfold holder_ok; cbn. auto.
     + cur_goal Hth Ic Hq.
+    + ret_goal Hth Ir.
   - (* send *)
     inversion H; subst; clear H.
     assert (Hcs : in_cs (t_pc th) = true) by (rewrite Hpc; auto).
     destruct (is_holder g t th I Hth Hcs) as [L Hk].
     unfold holder_ok in Hk. rewrite Hpc in Hk. destruct Hk as (-> & Hw & Hib).
-    destruct I as [Il Iq In Is Iso Id Ih Ic].
+    destruct I as [Il Iq In Is Iso Id Ih Ic Ir].
     constructor; cbn; auto.
     + intros t' x Hx. destruct (upd_cases _ _ _ _ _ _ Hth Hx) as [[-> ->]|[Hne Hx']].
       * cbn. split; auto.
@@ -249,6 +282,7 @@ Proof.
         exists (pack_sseq c (g_sseq g)), q, (g_wire g). repeat split; auto.
         left. repeat split; auto. rewrite Hib, In. reflexivity.
     + cur_goal Hth Ic Hq.
+    + ret_goal Hth Ir.
   - (* receive *)
     assert (Hcs : in_cs (t_pc th) = true) by (rewrite Hpc; auto).
     destruct (is_holder g t th I Hth Hcs) as [L Hk].
@@ -283,13 +317,33 @@ Proof.
     destruct o as [r|e]; [|contradiction].
     destruct Hk as (s & q1 & w & Hq1 & Hw & Hwf & Hr & Hib).
     assert (q1 = q) by congruence. subst q1.
-    destruct I as [Il Iq In Is Iso Id Ih Ic].
+    destruct I as [Il Iq In Is Iso Id Ih Ic Ir].
     constructor; cbn; auto.
     + intros t' x Hx. destruct (upd_cases _ _ _ _ _ _ Hth Hx) as [[-> ->]|[Hne Hx']].
       * cbn. split; discriminate.
       * split.
         -- intro Hc. apply (Il t' x Hx') in Hc. congruence.
         -- discriminate.
+    + intros t' x Hx. destruct (upd_cases _ _ _ _ _ _ Hth Hx) as [[-> ->]|[Hne Hx']].
+      * apply done_ok_set_pc. apply Id; auto.
+      * apply Id; auto.
+    + split; auto. rewrite Hw. constructor; auto.
+    + cur_goal Hth Ic Hq.
+    + intros t' x Hx. destruct (upd_cases _ _ _ _ _ _ Hth Hx) as [[-> ->]|[? ?]].
+      * unfold ret_ok; cbn. exists q. split; auto. exists [], w, s, h. split; auto.
+      * eapply Ir; eauto.
+  - (* the code after the with block: the outcome goes to the caller *)
+    inversion H; subst; clear H.
+    assert (Hcs : in_cs (t_pc th) = false) by (rewrite Hpc; auto).
+    pose proof (not_holder g t th I Hth Hcs) as NH.
+    destruct I as [Il Iq In Is Iso Id Ih Ic Ir].
+    pose proof (Ir t th Hth) as Hr. unfold ret_ok in Hr. rewrite Hpc in Hr.
+    destruct o as [r|e]; [|contradiction]. destruct Hr as (q1 & Hq1 & Hex).
+    assert (q1 = q) by congruence. subst q1.
+    constructor; cbn; auto.
+    + intros t' x Hx. destruct (upd_cases _ _ _ _ _ _ Hth Hx) as [[-> ->]|[Hne Hx']].
+      * cbn. split; [discriminate | intro; contradiction].
+      * apply Il; auto.
     + intros t' x Hx. destruct (upd_cases _ _ _ _ _ _ Hth Hx) as [[-> ->]|[Hne Hx']].
       * destruct (Id t th Hth) as [D1 D2]. split; cbn.
         -- rewrite app_length; cbn. lia.
@@ -301,11 +355,12 @@ Proof.
               ** cbn in Ho. inversion Ho; subst o; clear Ho.
                  assert (j = t_k th) by lia. subst j.
                  exists q, r. repeat split; auto.
-                 exists [], w, s, h. split; auto.
               ** destruct d; discriminate.
       * apply Id; auto.
-    + split; auto. rewrite Hw. constructor; auto.
+    + destruct (g_lock g) as [t0|]; auto. destruct Ih as (th0 & E0 & H0).
+      exists th0. split; auto. rewrite nth_error_upd_neq; auto; congruence.
     + cur_goal Hth Ic Hq.
+    + ret_goal Hth Ir.
 Qed.
 
 Lemma exec1_inv g t : Inv g -> Inv (exec1 c g t).
